@@ -530,7 +530,14 @@ def _localise_tags(entry, node):
 
 def lsnap(node, text=False):
     """snap() with per-table (not inherited) tags."""
-    out = snap(node, text=text)
+    try:
+        out = snap(node, text=text)
+    except Exception as err:        # pylint: disable=broad-except
+        # e.g. str(ArrayType) re-validates its bounds and raises once a
+        # symbol used in a bound is no longer an integer: the tree cannot
+        # be described any more - that is its (comparable) state
+        return {"tree": f"<snapshot raises {type(err).__name__}: "
+                        f"{str(err)[:300]}>", "text": None}
     if isinstance(out["tree"], list) and len(out["tree"]) == 4:
         _localise_tags(out["tree"], node)
     return out
@@ -802,7 +809,13 @@ def check_case(case, report, note=None):
         before = cache[other]
         if after != before:
             what = "original" if other == "orig" else "copy"
-            if after["tree"] != before["tree"]:
+            if isinstance(after["tree"], str) or \
+                    isinstance(before["tree"], str):
+                where = "snapshot: " + " -> ".join(
+                    tree if isinstance(tree, str) else "<ok>"
+                    for tree in (before["tree"], after["tree"]))
+                part = "snap"
+            elif after["tree"] != before["tree"]:
                 where = "snapshot: " + str(
                     first_diff(before["tree"], after["tree"]))
                 part = "snap"
@@ -851,9 +864,18 @@ def cls_property_refs(case):
     if parts[0] == "O4":
         edit = case.get("failed_edit", {})
         linked = {name for names in links.values() for name in names}
-        return (edit.get("kind") == "rename" and edit.get("side") == "orig"
-                and edit.get("status") == "ok"
-                and edit.get("symbol_at_copy") in linked)
+        if edit.get("side") != "orig" or edit.get("status") != "ok":
+            return False
+        if edit.get("kind") == "rename":
+            return edit.get("symbol_at_copy") in linked
+        if edit.get("kind") == "retype":
+            # the copy's (shared) ArrayType still refers to the original's
+            # symbol in a bound: once that symbol is no longer an integer
+            # the copy's type cannot be printed/written any more
+            bounds = set(links.get("decl_shape", [])) | \
+                set(links.get("decl_struct", []))
+            return edit.get("symbol_at_copy") in bounds
+        return False
     return False
 
 
